@@ -174,6 +174,13 @@ def blake2_ops():
         x.call(c, "__call__", [B(x.msg())], {"outlen": x.rng.choice([99, 0, 65, 200])}, cls=BAD,
                tag="bad_outlen")
     ops["bad_outlen"] = (BAD, bad_outlen)
+
+    def bad_salt(x, c):
+        kw = {x.rng.choice(["salt", "pers"]): B(rbytes(x.rng, x.rng.choice([1, 3, x.info["w"] * 2 + 1, 40])))}
+        if x.rng.random() < 0.3:
+            kw = {"keylen": x.rng.choice([65, 200, 1000])}
+        x.call(c, "__call__", [B(x.msg())], kw, cls=BAD, tag="bad_salt")
+    ops["bad_salt"] = (BAD, bad_salt)
     return ops
 
 
@@ -230,6 +237,10 @@ def keccak_ops(sha3=False):
                tag="bad_r")
     ops["bad_r"] = (BAD, bad_r)
 
+    def bad_type(x, c):
+        x.call(c, "__call__", [x.rng.choice([12345, None, {"s": "text"}])], cls=BAD, tag="bad_type")
+    ops["bad_type"] = (BAD, bad_type)
+
     def bad_duplex(x, c):
         x.call(c, "duplex", [B(rbytes(x.rng, x.info["r"] // 8 + 1 + x.rng.randint(0, 9)))], cls=BAD,
                tag="bad_duplex")
@@ -265,6 +276,13 @@ def skein_ops():
     def bad_type(x, c):
         x.call(c, "__call__", [x.rng.choice([12345, None])], cls=BAD, tag="bad_type")
     ops["bad_type"] = (BAD, bad_type)
+
+    def bad_update(x, c):
+        if x.rng.random() < 0.5:
+            x.call(c, "update", [B(x.msg()), {"s": "nosuchtype"}], cls=BAD, tag="bad_update")
+        else:
+            x.call(c, "output", [B(rbytes(x.rng, x.rng.choice([0, 1, x.info["nb"] - 1])))], cls=BAD, tag="bad_update")
+    ops["bad_update"] = (BAD, bad_update)
     return ops
 
 
@@ -359,6 +377,12 @@ def tlsh_ops():
         x.call(c, "__call__", [B(rbytes(x.rng, x.rng.randint(0, 49)))], cls=BAD, tag="call_short")
     ops["call_short"] = (BAD, call_short)
 
+    def bad_from_hash(x, c):
+        # a digest of another configuration (other bucket count / checksum length), or garbage
+        n = x.rng.choice([0, 3, 14, 15, 17, 34, 35, 37, 66, 67, 69, 100])
+        x.call(c, "from_hash", [B(rbytes(x.rng, n))], cls=BAD, tag="bad_from_hash")
+    ops["bad_from_hash"] = (BAD, bad_from_hash)
+
     def bad_type(x, c):
         x.call(c, "__call__", [x.rng.choice([12345, None])], cls=BAD, tag="bad_type")
     ops["bad_type"] = (BAD, bad_type)
@@ -394,6 +418,11 @@ def nilsimsa_ops():
     def bad_type(x, c):
         x.call(c, "__call__", [12345], cls=BAD, tag="bad_type")
     ops["bad_type"] = (BAD, bad_type)
+
+    def update_badlist(x, c):
+        l = list(rbytes(x.rng, x.rng.randint(4, 9))) + [x.rng.choice([256, 999])] + list(rbytes(x.rng, 2))
+        x.call(c, "update", [{"badlist": l}], cls=BAD, tag="update_badlist")
+    ops["update_badlist"] = (BAD, update_badlist)
     return ops
 
 
@@ -469,6 +498,15 @@ def mode_ops(ctr=False):
     def bad_type(x, c):
         x.call(c, "enc", [x.rng.choice([None, 12345])], cls=BAD, tag="bad_type")
     ops["bad_type"] = (BAD, bad_type)
+
+    def bad_enc(x, c):
+        # unaligned message under 'nopadding' (refused by the cipher on the short last block);
+        # for padded modes a message holding a non-byte element
+        if x.info.get("aligned_only") and x.info["bb"] > 1:
+            x.call(c, "enc", [B(_unaligned(x.rng, x.info["bb"]))], cls=BAD, tag="bad_enc")
+        else:
+            x.call(c, "enc", [{"badlist": list(rbytes(x.rng, x.info["bb"] + 2)) + [300]}], cls=BAD, tag="bad_enc")
+    ops["bad_enc"] = (BAD, bad_enc)
     return ops
 
 
@@ -504,7 +542,13 @@ def stream_ops():
     ops["ks_part"] = (ABN, ks_part)
 
     def bad_nonce(x, c):
-        x.call(c, "enc", [{"bits": [5, 32]}, B(x.msg())], cls=BAD, tag="bad_nonce")
+        v = x.rng.random()
+        if v < 0.5:
+            x.call(c, "enc", [{"bits": [5, 32]}, B(x.msg())], cls=BAD, tag="bad_nonce")
+        elif v < 0.8:
+            x.call(c, "hash", [B(rbytes(x.rng, x.rng.choice([0, 16, 63, 65])))], cls=BAD, tag="bad_nonce")
+        else:
+            x.call(c, "enc", [{"bits": [x.rng.getrandbits(64), 64]}, 12345], cls=BAD, tag="bad_nonce")
     ops["bad_nonce"] = (BAD, bad_nonce)
     return ops
 
